@@ -115,6 +115,8 @@ def run(chk: Check, ctx: Any) -> None:
         "or is registered with the same-line flag when the statement continues the current line; (R3) every write handler that prints an op's own "
         "statement registers it, under that op's offset; (R4) vertices created by the graph passes carry no offset of a real op into a "
         "registration. Not decided: columns of statements inside multi-line strings."
+        " (R5/R6, interpreter-based) the decompiler's own map is compared with the printed text and with the map of the recompiled text on the program families"
+        "."
     )
     chk.rule("C09-R6", "round trip, every stage interpreted: each source-map entry of convert() is keyed by an input offset and points at the first character of the statement printed for that op; recompiling the text puts the op on the same line")
     chk.rule("C09-R1", "who-may-write _output/_line_number; each append of text T is paired with += T.count('\\n'); line writer newline <-> +1; reset consistent")
